@@ -339,6 +339,32 @@ def coq_pairs(ps):
     return '[' + '; '.join('(%d, %d)' % (a, b) for a, b in ps) + ']'
 
 
+# ---- one3d family (humidity, vertical_diffusivity): the Coq-side content (Model/One3d.v `one3d`) and view literals
+O3_FORMATS = ('humidity', 'vertical_diffusivity')
+
+
+def coq_one3d(c):
+    v = VARS[c['fmt']][0]
+    steps = '; '.join('(OStep %d %d %s)' % (L.f32_word(float(s['hhmm'])), s['date'], C.zll(s['fields'][v])) for s in c['steps'])
+    return '{| o_nx := %d; o_ny := %d; o_nz := %d; o_steps := [%s] |}' % (c['nx'], c['ny'], c['nz'], steps)
+
+
+def coq_oview(c, view):
+    """Coq literals (oview, tflag) of what a library reader presented (view = observe(...) or None when it raised). The
+    stamp words are not exposed by the readers: ov_stamps is rebuilt from the content for the steps presented (the Memmap
+    reader's are pinned through TFLAG)."""
+    if not view:
+        return '{| ov_nx := 0; ov_ny := 0; ov_nz := 0; ov_ntimes := 0; ov_stamps := []; ov_data := [] |}', '[]'
+    dm = view['dims']
+    arr = view['data'][VARS[c['fmt']][0]]
+    data = '[' + '; '.join(C.zll([[w for row in lay for w in row] for lay in t]) for t in arr) + ']'
+    n = min(len(arr), len(c['steps']))
+    stamps = '[' + '; '.join('(%d, %d)' % (L.f32_word(float(s['hhmm'])), s['date']) for s in c['steps'][:n]) + ']'
+    v = '{| ov_nx := %d; ov_ny := %d; ov_nz := %d; ov_ntimes := %d; ov_stamps := %s; ov_data := %s |}' % (
+        dm['COL'], dm['ROW'], dm['LAY'], dm['TSTEP'], stamps, data)
+    return v, coq_pairs(view.get('TFLAG') or [])
+
+
 # ----------------------------------------------------------------------------- land use (static file, old style: 11 categories)
 def gen_landuse(rng):
     nx, ny = rng.randint(1, 3), rng.randint(1, 3)
